@@ -26,15 +26,19 @@ structure CapsFx (dc : DrawCfg) (rc : RenderCfg) : Prop where
   goto : ∀ (t : Term) (x y : Nat), Good dc.rw t → (x : Int) + 1 < TParm.maxInt64 → (y : Int) + 1 < TParm.maxInt64 →
     t.feed (Render.render rc (.goto x y)) =
       { t with cx := min x (t.w - 1), cy := min y (t.h - 1), pendingWrap := false, cursorKnown := true }
-  pen : ∀ (t : Term) (s : Style), Good dc.rw t → StyleOk s →
+  pen : ∀ (t : Term) (s : Style), Good dc.rw t → Quiet rc t → StyleOk s →
     t.feed (Render.render rc (.setPen s)) = { t with pen := penOf rc s, penKnown := true, linkKnown := true }
-  hide : ∀ (t : Term), Good dc.rw t →
-    t.feed (Render.render rc .hideCursor) = { t with modes := { t.modes with cursorVisible := false } }
-  show_ : ∀ (t : Term) (cs cc : Nat), Good dc.rw t → Color.valid cc = false → cc ≠ colorReset →
+  /-- the hide-cursor string, when the description has one (otherwise hideCursor moves the cursor instead) -/
+  hide : ∀ (t : Term), Good dc.rw t → dc.hasHide = true →
+    ∃ m', t.feed (Render.render rc .hideCursor) = { t with modes := m' } ∧ ModesOk t.modes m' ∧
+      m'.cursorVisible = false ∧ m'.cursorShape = t.modes.cursorShape
+  /-- a description without a hide-cursor string is one the draw configuration knows to have none -/
+  hideEq : dc.hasHide = false → rc.ti.hideCursor = []
+  show_ : ∀ (t : Term) (cs cc : Nat), Good dc.rw t → Quiet rc t → Color.valid cc = false → cc ≠ colorReset →
     ∃ m', t.feed (Render.render rc (.showCursor cs cc)) = { t with modes := m' } ∧ ModesOk t.modes m' ∧
       m'.cursorVisible = true ∧ (cs < 7 → rc.d.cursorStyles ≠ none → m'.cursorShape = cs)
-  clear : ∀ (t : Term) (s : Style), Good dc.rw t →
-    ∃ t', t.feed (Render.render rc (.clear s)) = t' ∧ Good dc.rw t' ∧ t'.grid.w = t.grid.w ∧ t'.grid.h = t.grid.h ∧
+  clear : ∀ (t : Term) (s : Style), Good dc.rw t → Quiet rc t →
+    ∃ t', t.feed (Render.render rc (.clear s)) = t' ∧ Good dc.rw t' ∧ Quiet rc t' ∧ t'.grid.w = t.grid.w ∧ t'.grid.h = t.grid.h ∧
       t'.modes.cursorVisible = t.modes.cursorVisible ∧ t'.modes.cursorShape = t.modes.cursorShape
 
 /-- side condition of the simulation of one command in abstract state `a` -/
@@ -43,7 +47,7 @@ def Admit (dc : DrawCfg) (a : ATerm) : Cmd → Prop
   | .setPen s => StyleOk s
   | .put bytes width => ∃ x y st, a.cur = some (x, y) ∧ a.pen = some st ∧ a.inGrid x y ∧ x + width ≤ a.w ∧
       PayloadOk dc.rw bytes width
-  | .hideCursor => True
+  | .hideCursor => dc.hasHide = true
   | .showCursor _ cc => Color.valid cc = false ∧ cc ≠ colorReset
   | .clear _ => True
   | .insertChar => False
@@ -91,6 +95,7 @@ theorem sim_cmd {dc : DrawCfg} {rc : RenderCfg} (hrw : RwB dc.rw) (fx : CapsFx d
     have hw := R.w; have hh := R.h
     exact {
       good := good_of_eq R.good rfl rfl (ModesOk.refl _) rfl
+      quiet := ⟨R.quiet.link, R.quiet.vis⟩
       w := R.w, h := R.h, cells := R.cells, conts := R.conts
       cur := by
         intro x' y' hc hx' hy'
@@ -109,9 +114,10 @@ theorem sim_cmd {dc : DrawCfg} {rc : RenderCfg} (hrw : RwB dc.rw) (fx : CapsFx d
           split <;> (try split) <;> omega
       pen := R.pen, vis := R.vis, shape := R.shape }
   | setPen s =>
-    rw [fx.pen t s R.good had]
+    rw [fx.pen t s R.good R.quiet had]
     exact {
       good := good_of_eq R.good rfl rfl (ModesOk.refl _) rfl
+      quiet := ⟨fun _ => ⟨rfl, by show (penOf rc s).link = none; simp [penOf, show s.url = "" from had]⟩, R.quiet.vis⟩
       w := R.w, h := R.h, cells := R.cells, conts := R.conts, cur := R.cur
       pen := by
         intro s' h
@@ -129,20 +135,29 @@ theorem sim_cmd {dc : DrawCfg} {rc : RenderCfg} (hrw : RwB dc.rw) (fx : CapsFx d
     · exact sim_put_narrow hrw R m comb st x y hv h32 hc hw hcomb hcur hpen hin
     · exact sim_put_wide hrw R m comb st x y hv h32 hc hw hcomb hcur hpen hin hfit
   | hideCursor =>
-    rw [fx.hide t R.good]
-    have mo : ModesOk t.modes { t.modes with cursorVisible := false } := ⟨rfl, rfl, rfl, rfl, rfl⟩
-    exact {
-      good := good_of_eq R.good rfl rfl mo rfl
-      w := R.w, h := R.h, cells := R.cells, conts := R.conts
-      cur := fun x y h hx hy => curRep_modes mo (R.cur x y h hx hy)
-      pen := R.pen
-      vis := by intro b h; simp only [ATerm.apply, Option.some.injEq] at h; subst h; rfl
-      shape := R.shape }
-  | showCursor cs cc =>
-    obtain ⟨m', e, mo, hv, hs⟩ := fx.show_ t cs cc R.good had.1 had.2
+    obtain ⟨m', e, mo, hv, hs⟩ := fx.hide t R.good had
     rw [e]
     exact {
       good := good_of_eq R.good rfl rfl mo rfl
+      quiet := ⟨R.quiet.link, fun h => by
+        -- a terminal with a hide string: the premise is false
+        exfalso
+        have : Render.render rc .hideCursor = [] := by simp [Render.render, h]
+        rw [this] at e
+        have : t.modes = m' := by simpa [Term.feed] using congrArg Term.modes e
+        have h1 := R.quiet.vis h
+        rw [this, hv] at h1; cases h1⟩
+      w := R.w, h := R.h, cells := R.cells, conts := R.conts
+      cur := fun x y h hx hy => curRep_modes mo (R.cur x y h hx hy)
+      pen := R.pen
+      vis := by intro b h; simp only [ATerm.apply, Option.some.injEq] at h; subst h; exact hv
+      shape := by intro cs cc h h7 hn; show m'.cursorShape = cs; rw [hs]; exact R.shape cs cc h h7 hn }
+  | showCursor cs cc =>
+    obtain ⟨m', e, mo, hv, hs⟩ := fx.show_ t cs cc R.good R.quiet had.1 had.2
+    rw [e]
+    exact {
+      good := good_of_eq R.good rfl rfl mo rfl
+      quiet := ⟨R.quiet.link, fun _ => hv⟩
       w := R.w, h := R.h, cells := R.cells, conts := R.conts
       cur := fun x y h hx hy => curRep_modes mo (R.cur x y h hx hy)
       pen := R.pen
@@ -153,10 +168,11 @@ theorem sim_cmd {dc : DrawCfg} {rc : RenderCfg} (hrw : RwB dc.rw) (fx : CapsFx d
         obtain ⟨rfl, rfl⟩ := h
         exact hs h7 hn }
   | clear s =>
-    obtain ⟨t', e, g', hw, hh, hv, hs⟩ := fx.clear t s R.good
+    obtain ⟨t', e, g', q', hw, hh, hv, hs⟩ := fx.clear t s R.good R.quiet
     rw [e]
     exact {
       good := g'
+      quiet := q'
       w := by rw [hw]; exact R.w
       h := by rw [hh]; exact R.h
       cells := fun _ _ _ _ => trivial
